@@ -13,7 +13,7 @@
    None = IndexError. *)
 From Coq Require Import ZArith List Bool.
 From PTK Require Import Lib.Sx Lib.Py Model.C15_Async Proofs.C15_Base Proofs.C15_User
-  Proofs.C15_Sched Proofs.C15_Cfg Proofs.C15_Theorems Proofs.C15_Rebase.
+  Proofs.C15_Sched Proofs.C15_Cfg Proofs.C15_Theorems Proofs.C15_Rebase Proofs.C15_Round4 Proofs.C15_Det.
 Import ListNotations.
 Open Scope Z_scope.
 
@@ -162,6 +162,122 @@ Theorem C15_cancel_pinned_partial : forall c t p ls,
 Proof. exact cancel_pinned_partial. Qed.
 Print Assumptions C15_cancel_pinned_partial.
 
+(* --- counts other than 1 (complete_next(count) of Up/Down with a numeric
+   argument, the menu's mouse scrolling) -----------------------------------------
+   From a selection i that is not the last, complete_next(count) selects
+   min(n-1, i+count) - it never wraps in one call - whenever i + count >= 0,
+   that is for every count >= 0 and for small negative ones (which move
+   backward) ... *)
+Theorem C15_next_count : forall c t p ls cs i count w,
+  0 <= p <= len t ->
+  cst (reach c t p ls) = Some cs -> cs_idx cs = Some i -> i <> len (cs_comps cs) - 1 -> 0 <= i + count ->
+  exists s', step (reach c t p ls) (CompleteNext count w) = (s', 0) /\
+    cst s' = Some (cs_with_idx cs (Some (Z.min (len (cs_comps cs) - 1) (i + count)))) /\
+    ntp (cs_with_idx cs (Some (Z.min (len (cs_comps cs) - 1) (i + count)))) = Some (text s', cur s').
+Proof. exact reach_next_count. Qed.
+Print Assumptions C15_next_count.
+
+(* ... and outside that precondition it raises AssertionError (status 1, from
+   go_to_index) and leaves buffer and menu exactly as they were. *)
+Theorem C15_next_count_outside : forall c t p ls cs i count w,
+  0 <= p <= len t ->
+  cst (reach c t p ls) = Some cs -> cs_idx cs = Some i -> i <> len (cs_comps cs) - 1 -> i + count < 0 ->
+  step (reach c t p ls) (CompleteNext count w) = (reach c t p ls, 1).
+Proof. exact reach_next_count_outside. Qed.
+Print Assumptions C15_next_count_outside.
+
+(* complete_previous(count) from a selection i > 0 selects max(0, i-count)
+   whenever i - count < n ... *)
+Theorem C15_prev_count : forall c t p ls cs i count w,
+  0 <= p <= len t ->
+  cst (reach c t p ls) = Some cs -> cs_idx cs = Some i -> i <> 0 -> i - count < len (cs_comps cs) ->
+  exists s', step (reach c t p ls) (CompletePrev count w) = (s', 0) /\
+    cst s' = Some (cs_with_idx cs (Some (Z.max 0 (i - count)))) /\
+    ntp (cs_with_idx cs (Some (Z.max 0 (i - count)))) = Some (text s', cur s').
+Proof. exact reach_prev_count. Qed.
+Print Assumptions C15_prev_count.
+
+(* ... and raises, changing nothing, otherwise (a negative count that would
+   run past the end). *)
+Theorem C15_prev_count_outside : forall c t p ls cs i count w,
+  0 <= p <= len t ->
+  cst (reach c t p ls) = Some cs -> cs_idx cs = Some i -> i <> 0 -> len (cs_comps cs) <= i - count ->
+  step (reach c t p ls) (CompletePrev count w) = (reach c t p ls, 1).
+Proof. exact reach_prev_count_outside. Qed.
+Print Assumptions C15_prev_count_outside.
+
+(* So "complete_next never raises on a consistent menu" is false: finding
+   C15-F2 (Esc - Down with the menu open). *)
+Theorem C15_negative_count_refuted :
+  exists c t p ls count, 0 <= p <= len t /\
+    (exists cs, cst (reach c t p ls) = Some cs /\ ntp cs = Some (text (reach c t p ls), cur (reach c t p ls))) /\
+    step (reach c t p ls) (CompleteNext count false) = (reach c t p ls, 1).
+Proof. exact negative_count_raises. Qed.
+Print Assumptions C15_negative_count_refuted.
+
+(* --- reset(): the next prompt ------------------------------------------------------
+   reset() clears menu, verdict and suggestion but leaves the coroutines of the
+   previous prompt suspended where they are ... *)
+Theorem C15_reset_clears : forall c t p ls t' p',
+  0 <= p' <= len t' ->
+  let s := reach c t p ls in let s' := apply s (Reset t' p') in
+  text s' = t' /\ cur s' = p' /\ cst s' = None /\ vst s' = 0 /\ sug s' = None /\
+  ccos s' = ccos s /\ vcos s' = vcos s /\ scos s' = scos s.
+Proof. exact reach_reset. Qed.
+Print Assumptions C15_reset_clears.
+
+(* ... and when they resume they publish nothing unless the buffer's document
+   is (again) the one they were called with: [reach] includes Reset and
+   ValidateAndHandle, so C15_completions_fresh / C15_verdict_fresh /
+   C15_suggestion_fresh / C15_menu_consistent hold across prompts.  In detail
+   (any state): a validator or suggester whose document differs publishes
+   nothing and asks again for the current document; *)
+Theorem C15_late_validator : forall s k ok d,
+  get_nth (vcos s) k = Some d -> doc_eqb (cur_doc s) d = false ->
+  let s' := fst (vreturn s k ok) in
+  vst s' = vst s /\ vsrc s' = vsrc s /\ sug s' = sug s /\ cst s' = cst s /\ text s' = text s /\ cur s' = cur s /\
+  (vst s = 0 -> vcos s' = replace_nth (vcos s) k (cur_doc s)).
+Proof. exact late_validator. Qed.
+Print Assumptions C15_late_validator.
+
+Theorem C15_late_suggester : forall s k v d,
+  get_nth (scos s) k = Some d -> doc_eqb (cur_doc s) d = false ->
+  let s' := fst (sreturn s k v) in
+  sug s' = sug s /\ vst s' = vst s /\ cst s' = cst s /\ text s' = text s /\ cur s' = cur s /\
+  (sug s = None -> scos s' = remove_nth (scos s) k ++ [cur_doc s]).
+Proof. exact late_suggester. Qed.
+Print Assumptions C15_late_suggester.
+
+(* a completer whose menu is gone installs none of the completions it
+   delivers: no menu afterwards, or (the text before the cursor only grew:
+   _Retry) a new empty menu for the document as it is now. *)
+Theorem C15_late_completer : forall s k t st s' e,
+  cst s = None -> (cyield s k t st = (s', e) \/ cend s k = (s', e)) ->
+  (cst s' = None \/
+   exists cs, cst s' = Some cs /\ cs_comps cs = [] /\ cs_idx cs = None /\ cs_orig cs = cur_doc s') /\
+  text s' = text s /\ cur s' = cur s /\ vst s' = vst s /\ sug s' = sug s.
+Proof.
+  intros s k t st s' e H [A|A]; [exact (late_completer_yield s k t st s' e H A)|exact (late_completer_end s k s' e H A)].
+Qed.
+Print Assumptions C15_late_completer.
+
+(* --- the threaded wrappers ------------------------------------------------------
+   ThreadedValidator / ThreadedAutoSuggest run a function of the document in a
+   worker thread; run_in_executor hands the value to the event loop, where it
+   arrives as a VReturn / SReturn label.  If every such label (and every
+   synchronous validate) carries the function's value for the document the
+   call was made with ([det_run]), then at every moment the verdict shown is
+   the validator's verdict for the text shown and the suggestion shown is the
+   suggester's suggestion for the text shown - the oracle of the real-thread
+   stress stream, for every label list. *)
+Theorem C15_threaded_values : forall (fvalid : list Z -> bool) (fsugg : list Z -> option (list Z)) c t p ls,
+  0 <= p <= len t -> vwt c = true -> det_run fvalid fsugg (init c t p) ls ->
+  let s := run (init c t p) ls in
+  (vst s <> 0 -> vst s = (if fvalid (text s) then 1 else 2)) /\
+  (forall sg d, sug s = Some (sg, d) -> fsugg (text s) = Some sg).
+Proof. exact det_shown. Qed.
+Print Assumptions C15_threaded_values.
+
 (* At most one completer, validator and suggester is past its
    `_only_one_at_a_time` guard, and none when the guard's flag is clear. *)
 Theorem C15_single_flight : forall c t p ls,
@@ -197,6 +313,16 @@ Example C15_sync_validate_race :
   vst s = 2 /\ cur s = 1 /\ vcos s = [] /\ vrun s = false /\
   exists d, vsrc s = Some d /\ dtext d = text s.
 Proof. vm_compute. repeat split. eexists. split; reflexivity. Qed.
+
+(* Enter while completer, validator and suggester of the accepted line are
+   still in flight: the next prompt starts empty, their late results are all
+   dropped *)
+Example C15_accept_with_everything_in_flight :
+  let s := reach (mkcfg true true true 10000 true) [97] 1
+             [Insert [98]; Tick; ValidateAndHandle true 0 false;
+              CYield 0 [97; 98; 99] (-2); VReturn 0 false; SReturn 0 (Some [120])] in
+  text s = [] /\ cst s = None /\ vst s = 0 /\ sug s = None /\ ccos s = [] /\ length (vcos s) = 1%nat.
+Proof. vm_compute. repeat split. Qed.
 
 Example C15_former_witness_now_fine :
   let s := reach w_cfg [97; 98] 2 w_labels in
